@@ -148,6 +148,11 @@ def case(prog, params):
                 exp_body = content.substr(s_.v, bv_sub(bv_add(e_.v, 1, LW), s_.v, LW)) if True else None
                 inside = z3.And(z3.ULT(evv, L), z3.ULE(sv, evv))
                 checks.append(('body-is-not-the-labelled-slice', z3.And(inside, z3.Not(zb(body.eq(exp_body)))), pi))
+                # parts labelled one past the end (the known off-by-one label, see known_findings) must still carry exactly the bytes
+                # from the labelled start to the end of the file -- "never bytes from other offsets"
+                clamp = z3.And(z3.UGE(evv, L), z3.ULE(sv, L))
+                exp_tail = content.substr(s_.v, bv_sub(content.length(), s_.v, LW))
+                checks.append(('bytes-from-other-offsets', z3.And(clamp, z3.Not(zb(body.eq(exp_tail)))), pi))
                 from mirse.models import parse_int
                 okp, szv = parse_int(size, 'u64')
                 checks.append(('size-is-not-the-file-length', b_or(b_not(okp), b_not(bv_eq(szv.v, content.length(), LW))) if okp is not False else True, pi))
